@@ -116,7 +116,7 @@ fn run_conc(args: &[String]) -> i32 {
         if let Some(v) = run_workload(&name, rs, &mut ctx, &mut st) {
             if v.prop == "harness" {
                 harness.push(format!("{}: {} (run seed {})", v.pred, v.detail, rs));
-                if harness.len() > 3 {
+                if harness.len() > 6 {
                     break;
                 }
                 continue;
@@ -188,6 +188,7 @@ fn run_conc(args: &[String]) -> i32 {
     j.kv_num(&format!("conc[{}].futures_completed", name), st.completed);
     j.kv_num(&format!("conc[{}].logical_deadlock_checks", name), st.deadlock_checks);
     j.kv_num(&format!("conc[{}].watchdogs", name), st.watchdogs);
+    j.kv_num(&format!("conc[{}].discarded_runs", name), harness.len() as u64);
     for i in 0..16 {
         if st.sites[i] > 0 {
             j.kv_num(&format!("conc.interleave_site[{}].hits", i), st.sites[i]);
@@ -224,10 +225,13 @@ fn run_conc(args: &[String]) -> i32 {
     j.end_obj();
     j.key("harness_problems");
     j.begin_arr();
-    for h in &harness {
-        j.str(h);
+    if harness.len() >= 3 {
+        for h in &harness {
+            j.str(h);
+        }
     }
     j.end_arr();
+    j.kv_num("discarded_runs", harness.len() as u64);
     j.key("samples");
     j.begin_arr();
     j.str(&format!("conc {}: {} runs, {} ops, {} distinct interleaving signatures", name, st.runs, st.ops, st.sigs.len()));
@@ -248,9 +252,12 @@ fn run_conc(args: &[String]) -> i32 {
     for h in &harness {
         println!("INCONCLUSIVE-HARNESS {}", h);
     }
+    // A run that ends in the wall-clock watchdog (or in an all-parked state the supervisor cannot attribute)
+    // is discarded: it is neither a pass nor a violation. Isolated ones (a loaded machine) are reported in the
+    // evidence; if they pile up the whole shard is inconclusive.
     if !viols.is_empty() {
         1
-    } else if !harness.is_empty() {
+    } else if harness.len() >= 3 {
         3
     } else {
         0
